@@ -145,7 +145,7 @@ def check_writer_piecewise(ctx: Ctx, rule: str, M=None):
         M = printers.model(ctx)
     pw = M.method("ode", "_print_Piecewise")
     frs = pm.fragments(pw)
-    okpw = "Conditional(" in frs and any(isinstance(n, ast.For) and norm(n.iter) == "zip(conds, exprs)" for n in ast.walk(pw.node)) and any(isinstance(n, ast.If) and norm(n.test).replace('"', "'") == "c == '1'" for n in ast.walk(pw.node))
+    okpw = "Conditional(" in frs and any(isinstance(n, ast.For) and norm(n.iter) == "zip(conds, exprs)" for n in ast.walk(pw.node)) and any(isinstance(n, ast.If) and _u11.norm_with_constants(ctx, pw, n.test).replace('"', "'") == "c == '1'" for n in ast.walk(pw.node))
     closes = [n for n in ast.walk(pw.node) if isinstance(n, ast.BinOp) and isinstance(n.op, ast.Mult) and const_str(n.left) == ")"]
     okpw = okpw and bool(closes) and norm(closes[0].right) == "len(conds) - 1"
     anchor = any(isinstance(n, ast.For) and norm(n.iter) == "zip(conds, exprs)" for n in ast.walk(pw.node))
